@@ -1,10 +1,34 @@
 import Pendulum.Drv.Util
-/-! request handler for property C13 (stub until the property is built) -/
+import Pendulum.Model.IsoDur
+import Pendulum.Model.IsoInterval
+/-! request handler for property C13: `pdur <rs|py> <string>` and `pint <rs|py> <string>` -/
 namespace Pendulum.Drv.C13
-open Pendulum Pendulum.Drv
+open Pendulum Pendulum.Drv Pendulum.IsoDur
+
+def backend (w : String) : Option Backend :=
+  if w == "rs" then some .rust else if w == "py" then some .py else none
+
+def errLine (k : Kind) : String :=
+  match k with
+  | .range => "err Range"
+  | _ => "err ParserError"
+
+def dtInts (t : IsoInterval.DT) : List Int := [t.y, t.m, t.d, t.h, t.mi, t.s, t.us, t.off]
 
 def handle (_zs : Zones) (ws : List String) : Option String :=
   match ws with
+  | ["pdur", b, s] => do
+    let b ← backend b
+    let s ← decStr s
+    match parse b s.toList with
+    | .ok d => some (okInts [d.years, d.months, d.us])
+    | .error k => some (errLine k)
+  | ["pint", b, s] => do
+    let b ← backend b
+    let s ← decStr s
+    match IsoInterval.parseInterval b s.toList with
+    | .ok (s, e) => some (okInts (dtInts s ++ dtInts e))
+    | .error k => some (errLine k)
   | _ => none
 
 end Pendulum.Drv.C13
